@@ -916,6 +916,7 @@ package p9
 //@   ensures[C08] @fenced-refused old(has(cs.fids, t.fid)) && old(fenced(cs.fids[t.fid])) ==> isErr(result, linux.EINVAL) && nocalls()
 //@   at File.GetXattr requires[C03] @forwards recv == old(cs.fids[t.fid]).file && arg0 == old(t.Name)
 //@   at File.ListXattrs requires[C03] @forwards recv == old(cs.fids[t.fid]).file
+//@   at File.Walk requires[C03,C05] @new-fid-gets-a-clone-of-the-file recv == old(cs.fids[t.fid]).file && len(arg0) == 0
 //@   ensures[C15] @backend-error-reported ncalls() > old(ncalls()) && ghost("$lasterr", error) != nil ==> isErr(result, errno(ghost("$lasterr", error)))
 
 // ---- clunk / remove: always unbind ----------------------------------------------
